@@ -1,5 +1,5 @@
 CHECK = dict(
-    level='model_checking',
+    level='model_checking', distinct_global=True,
     parts=[dict(name='c13', src=['harness/c13_wavheader.c'], workers=1,
                 deadline=dict(quick=120, thorough=900)),
            dict(name='c13d', src=['harness/c13_wavheader.c'], workers=16, cflags=['-DC13_DECODE_FIRST'],
@@ -15,11 +15,13 @@ CHECK = dict(
          'part c13d (evaluations/distinct_nontrivial): the decode-first clause over the complete C14 corpus (all byte '
          'strings of length 0..L; 5 valid templates x <= D deviating fields x adversarial value menus x every truncation '
          'length): every accepted string is re-encoded into a guard-paged buffer of exactly the reported length and compared '
-         'with the input, ignored extension bytes zeroed. evaluations = decode calls; distinct_nontrivial = distinct '
+         'with the input, ignored extension bytes zeroed; plus the big-header family: full product of 18 fmt-extension lengths '
+         '(0 .. 16 MiB, on both sides of 2^8, 2^12, 2^16, 2^17, 2^24) x 5 cb_size values x 3 format tags x fact chunk or not x 0/2 '
+         'trailing bytes = 1080 headers of up to 16 MiB. evaluations = decode calls; distinct_nontrivial = distinct '
          '(template, input bytes, declared length) triples that were ACCEPTED and re-encoded, counted with a hash set',
     bounds=dict(quick='mutator graph: complete reachable state space (histories of every length over the stated alphabet); '
-                      'decode-first: L = 2, D = 2',
-                thorough='mutator graph: complete reachable state space; decode-first: L = 3, D = 3'),
+                      'decode-first: L = 2, D = 2, plus 1080 big headers',
+                thorough='mutator graph: complete reachable state space; decode-first: L = 3, D = 3, plus 1080 big headers'),
     assumptions=['scope guard: init combinations whose block alignment exceeds 16 bits or whose byte rate exceeds 32 bits, and '
                  'frame counts whose data or RIFF size exceeds 32 bits, are generated, skipped and counted; set_num_frames '
                  'is applied only to an initialised header',
@@ -42,3 +44,22 @@ CHECK.update(
                'and the reference parser used to locate ignored extension bytes.',
     design_ref='DESIGN.md section 4, C13',
 )
+
+# build variants: the same enumeration on other builds of the librfn sources (conditional code such as __OPTIMIZE_SIZE__ /
+# __OPTIMIZE__ / __clang__, and compiler-dependent arithmetic, show only there); counted separately by the driver
+def _variants(parts, names):
+    out = []
+    for p in parts:
+        if p['name'] not in names:
+            continue
+        for tag, cc, flags, tiers in (('gcc -Os', 'gcc', ['-Os'], ('quick', 'thorough')), ('clang -O2', 'clang', [], ('thorough',))):
+            q = dict(p)
+            q['name'] = p['name'] + '_' + tag.split()[0] + tag.split()[1].strip('-')
+            q['variant'] = tag
+            q['cc'] = cc
+            q['cflags'] = list(p.get('cflags', [])) + flags
+            q['tiers'] = tiers
+            out.append(q)
+    return out
+CHECK['parts'] = CHECK['parts'] + _variants(CHECK['parts'], ['c13', 'c13d'])
+CHECK['bounds'] = dict((k, v + '; the whole enumeration repeated on a gcc -Os build' + (' and a clang -O2 build' if k == 'thorough' else '') + ' of the librfn sources (counted separately)') for k, v in CHECK['bounds'].items())
